@@ -183,7 +183,7 @@ def build(interp):
     M[min] = lambda *a, **k: _extreme(a, k, False)
     M[max] = lambda *a, **k: _extreme(a, k, True)
 
-    def sym_sorted(iterable, key=None, reverse=False):
+    def sym_sorted(iterable, key=None, reverse=False, ties_free=False):
         items = list(interp.iterate(iterable))
         keys = [interp.call(key, (x,), {}) for x in items] if key is not None else items
         if not has_sym(keys):
@@ -197,6 +197,8 @@ def build(interp):
                 lt = deep_lt(keys[j], keys[i]) if reverse else deep_lt(keys[i], keys[j])
                 if interp.truth(lt):
                     pos -= 1
+                elif ties_free and interp.truth(deep_eq(keys[i], keys[j])) and sym.ctx().choose():
+                    pos -= 1      # unstable sort: equal elements may come out in either order
                 else:
                     break
             order.insert(pos, i)
@@ -336,9 +338,8 @@ def build(interp):
             if arr.ndim != 1:
                 raise Unsupported("argsort of symbolic nd-array")
             vals = list(arr)
-            idx = sym_sorted(range(len(vals)), key=lambda i: vals[i])
-            # NOTE: numpy's default quicksort is not stable; ties are resolved by forking in
-            # `argsort_any` when a contract asks for tie-freedom.  Here: stable order.
+            # numpy's default sort is not stable: equal elements may be returned in ANY order (all explored)
+            idx = sym_sorted(range(len(vals)), key=lambda i: vals[i], ties_free=True)
             return np.array(idx, dtype=np.int64)
         return np.argsort(x, *a, **k)
     M[np.argsort] = np_argsort
